@@ -215,6 +215,7 @@ class Outcome:
         "head_end",
         "drop_cl",
         "fold",
+        "decided",
     )
 
     def __init__(self, kind, **kw):
@@ -232,6 +233,7 @@ class Outcome:
         self.start = self.end = self.head_end = 0
         self.drop_cl = False
         self.fold = False
+        self.decided = None
         for k, v in kw.items():
             setattr(self, k, v)
 
@@ -266,8 +268,11 @@ def parse_message(data, pos, max_header, max_body):
 
     def _refuse(statuses, reason, **kw):
         # a message with several defects may be refused for any of them
+        decided = kw.pop("decided", None)
         o = Outcome("refuse", statuses=frozenset(statuses) | frozenset(may_refuse) | frozenset(refuse_extra), reason=reason, **kw)
         o.zones = set(zones)
+        # offset (exclusive) by which the refusal is decidable from the bytes
+        o.decided = decided if decided is not None else (kw.get("head_end") or None)
         return o
 
     # leading empty lines: CRLF only (RFC 9112 2.2)
@@ -286,7 +291,7 @@ def parse_message(data, pos, max_header, max_body):
         # by later bytes, so nothing can be said except for the size limit.
         sofar = n - pos
         if max_header is not None and sofar >= max_header:
-            return _refuse((431,), "head reaches the limit without terminator", start=start)
+            return _refuse((431,), "head reaches the limit without terminator", start=start, decided=pos + max_header)
         out = Outcome("incomplete", reason="head incomplete", start=start)
         if max_header is not None and sofar + lead >= max_header:
             out.may_refuse.add(431)
@@ -295,7 +300,7 @@ def parse_message(data, pos, max_header, max_body):
     head_end = term + 4
     head_len = head_end - pos
     if max_header is not None and head_len >= max_header:
-        return _refuse((431,), "head reaches the limit", start=start, head_end=head_end)
+        return _refuse((431,), "head reaches the limit", start=start, head_end=head_end, decided=pos + max_header)
     if max_header is not None and head_len + lead >= max_header:
         may_refuse.add(431)
         zones.add("leading-crlf-counted")
@@ -507,7 +512,7 @@ def parse_message(data, pos, max_header, max_body):
         refuse_extra.add(413)
     while True:
         if max_body is not None and len(body) >= max_body:
-            return _refuse((413,), "decoded body reaches the limit", start=start, head_end=head_end, expect=expect, version=version)
+            return _refuse((413,), "decoded body reaches the limit", start=start, head_end=head_end, expect=expect, version=version, decided=p)
         if max_body is not None and p - body_start >= max_body:
             may_refuse.add(413)
             zones.add("encoded-size")
@@ -520,14 +525,15 @@ def parse_message(data, pos, max_header, max_body):
             return o
         size = parse_chunk_line(data[p:eol])
         if size is None:
-            return _refuse(S400, "chunk size / extension", start=start, head_end=head_end, expect=expect, version=version)
+            return _refuse(S400, "chunk size / extension", start=start, head_end=head_end, expect=expect, version=version, decided=eol + 2)
         p = eol + 2
         if size == 0:
             break
         avail = data[p : p + size]
         body += avail
         if max_body is not None and len(body) >= max_body:
-            return _refuse((413,), "decoded body reaches the limit", start=start, head_end=head_end, expect=expect, version=version)
+            return _refuse((413,), "decoded body reaches the limit", start=start, head_end=head_end, expect=expect, version=version,
+                           decided=p + max(0, max_body - (len(body) - len(avail))))
         if len(avail) < size:
             o = incomplete("chunk data incomplete")
             if max_body is not None and n - body_start >= max_body:
@@ -541,7 +547,7 @@ def parse_message(data, pos, max_header, max_body):
                 o.may_refuse.add(413)
             return o
         if t != b"\r\n":
-            return _refuse(S400, "chunk terminator", start=start, head_end=head_end, expect=expect, version=version)
+            return _refuse(S400, "chunk terminator", start=start, head_end=head_end, expect=expect, version=version, decided=p + 2)
         p += 2
     # trailer section: *( field-line CRLF ) CRLF
     tstart = p
@@ -561,14 +567,14 @@ def parse_message(data, pos, max_header, max_body):
     tfold = False
     for i, ln in enumerate(tlines):
         if b"\r" in ln or b"\n" in ln:
-            return _refuse(S400, "bare CR or LF in the trailer", start=start, head_end=head_end, expect=expect, version=version)
+            return _refuse(S400, "bare CR or LF in the trailer", start=start, head_end=head_end, expect=expect, version=version, decided=p)
         if ln[:1] in (b" ", b"\t"):
             if i == 0:
-                return _refuse(S400, "trailer line", start=start, head_end=head_end, expect=expect, version=version)
+                return _refuse(S400, "trailer line", start=start, head_end=head_end, expect=expect, version=version, decided=p)
             tfold = True
             continue
         if parse_field_line(ln) is None:
-            return _refuse(S400, "trailer line", start=start, head_end=head_end, expect=expect, version=version)
+            return _refuse(S400, "trailer line", start=start, head_end=head_end, expect=expect, version=version, decided=p)
     if tfold:
         out.zones.add("obs-fold-trailer")
         out.may_refuse.add(400)
